@@ -86,7 +86,9 @@ theorem fanout_frame (b : B) (m : Msg) (subs : List (Nat × Nat)) :
 theorem retain_sroot (t : Mqtt.Model.Topics.MemTopics) (r : Mqtt.Model.Topics.RMsg) :
     (t.retain r).1.sroot = t.sroot := by
   unfold Mqtt.Model.Topics.MemTopics.retain
-  split <;> rfl
+  split
+  · rfl
+  · split <;> rfl
 
 theorem retainStep_frame (b : B) (m : Msg) : Frame b (retainStep b m).1 := by
   unfold retainStep
